@@ -1,6 +1,6 @@
 """enum_definition::build (C08 C02 C12 C15 C17 C20) and its trusted callees."""
 import rules
-from rules import fn_into_verus, ghost, closure_annot, after, before, body_start, body_end, fn_end
+from rules import fn_into_verus, ghost, closure_annot, after, before, body_start, body_end, fn_end, closure_of_call
 
 U = ("C02", "C08", "C12", "C15", "C17", "C20", "C10")
 
@@ -39,6 +39,7 @@ def apply(ctx, W):
             &&& Some(isr.size) == ty_size(isr.inner->Enum_0.type_, reg)
             &&& Some(isr.alignment) == ty_align(isr.inner->Enum_0.type_, reg)
         })""", ("C02", "C08", "C11"), "enum-base-size-align"),
+        ("res is Ok && res->Ok_0 is Some ==> is_int_base(res->Ok_0->0.inner->Enum_0.type_)", ("C08",), "enum-base-is-integer"),
         ("""res is Ok && res->Ok_0 is Some ==> ({
             let ed = res->Ok_0->0.inner->Enum_0;
             &&& ed.fields@.len() == definition.statements@.len()
@@ -70,6 +71,8 @@ def apply(ctx, W):
             forall|k: int| 0 <= k < ed.fields@.len() ==> fits_base(ed.type_, (#[trigger] ed.fields@[k]).1)
         })""", ("C08",), "enum-value-fits-base"),
     ])
+    # the base-type test (F23): the last path segment matched against the ten integer names
+    ghost(ctx, fw, u, before(fw, fw.top_let(fn, "is_integer")), 'proof { reveal_strlit("u8"); reveal_strlit("u16"); reveal_strlit("u32"); reveal_strlit("u64"); reveal_strlit("u128"); reveal_strlit("i8"); reveal_strlit("i16"); reveal_strlit("i32"); reveal_strlit("i64"); reveal_strlit("i128"); }')
     l1, l2, l3 = fw.loop(fn, 1), fw.loop(fn, 2), fw.loop(fn, 3)
     rules.for_to_index_loop(ctx, fw, u, l1, seq="definition.statements", ivar="i_s")
     rules.index_loop_spec(ctx, fw, u, l1, tags=("C08", "C20"), invariants=[
